@@ -181,7 +181,7 @@ func prepare(quiet bool) string {
 	if _, err := os.Stat(instr); err != nil {
 		trouble("%s missing: run ./setup.sh", instr)
 	}
-	run(scratch, instr, "-dir", scratch, "-report", filepath.Join(scratch, "instrument.json"))
+	run(scratch, instr, "-dir", scratch, "-yields", "-report", filepath.Join(scratch, "instrument.json"))
 	copyDir(filepath.Join(verifDir, "harness"), filepath.Join(scratch, "zzhapsim"))
 	// injected export files (I5): <verif>/inject/<pkg path with __>/file.go
 	injectRoot := filepath.Join(verifDir, "inject")
